@@ -63,6 +63,8 @@ mod config;
 mod handle;
 #[cfg(test)]
 mod tests;
+#[cfg(feature = "verif")]
+pub mod verif;
 
 /// Logging target for the file.
 const LOG_TARGET: &str = "litep2p::request-response::protocol";
